@@ -7,6 +7,7 @@ import (
 	"io"
 	"path/filepath"
 	"reflect"
+	"sort"
 	"strconv"
 	"strings"
 	"unicode/utf8"
@@ -361,6 +362,23 @@ func (n *ForNode) Render(w io.Writer, ctx *RenderContext) error {
 	return n.renderForLoop(w, ctx, seq)
 }
 
+// sortedMapKeys returns the keys of a map value in a fixed order: numerically for
+// integer keys, by their string form otherwise.
+func sortedMapKeys(m reflect.Value) []reflect.Value {
+	keys := m.MapKeys()
+	sort.SliceStable(keys, func(i, j int) bool {
+		a, b := keys[i], keys[j]
+		switch a.Kind() {
+		case reflect.Int, reflect.Int8, reflect.Int16, reflect.Int32, reflect.Int64:
+			return a.Int() < b.Int()
+		case reflect.Uint, reflect.Uint8, reflect.Uint16, reflect.Uint32, reflect.Uint64, reflect.Uintptr:
+			return a.Uint() < b.Uint()
+		}
+		return fmt.Sprint(a.Interface()) < fmt.Sprint(b.Interface())
+	})
+	return keys
+}
+
 // saveLoopVariables records the current bindings of the names a for loop assigns
 // ("loop", the value variable and the key variable) and returns a function that
 // restores them.
@@ -532,7 +550,9 @@ func (n *ForNode) renderForLoop(w io.Writer, ctx *RenderContext, seq interface{}
 		}
 
 	case reflect.Map:
-		keys := val.MapKeys()
+		// Go maps have no order: iterate in the order of the keys so that the
+		// output is the same on every render
+		keys := sortedMapKeys(val)
 		for i, key := range keys {
 			// Set the loop variables
 			loopVars["loop"].(map[string]interface{})["index"] = i + 1
